@@ -33,5 +33,9 @@ type Vector struct {
 
 // Call the function with the arguments provided.
 func (f *Vector) Call(s *slip.Scope, args slip.List, depth int) slip.Object {
-	return slip.NewVector(len(args), slip.TrueSymbol, nil, args, true)
+	// The vector gets a list of its own: args can be a buffer the caller uses
+	// again (mapcar, map) or a list that belongs to the caller (apply).
+	elements := make(slip.List, len(args))
+	copy(elements, args)
+	return slip.NewVector(len(args), slip.TrueSymbol, nil, elements, true)
 }
